@@ -230,7 +230,7 @@ def build(stream, p):
 
     def run():
         np.random.seed(seed)
-        return dsw.approximate_capacity(arr, tolerance_level=tolv, repeats=repeats, maximum_iteration=maxit, process=True)
+        return gen.api("approximate_capacity", accessor=arr, tolerance_level=tolv, repeats=repeats, maximum_iteration=maxit, process=True)
 
     def enc(r):
         cap, rec = r
@@ -242,6 +242,8 @@ def build(stream, p):
         if isinstance(raw, BaseException):
             return "raised %r" % (raw,)
         cap = float(raw[0])
+        if cap != cap:
+            return "capacity is nan (process record: %r)" % (raw[1],)
         if cap > 2.0:
             return "capacity %r exceeds 2 bits per nucleotide" % cap
         if all(x == -1 for r in rows for x in r):
